@@ -8,6 +8,9 @@ import common
 from propbase import PropBase, model_cfg, cmp_status
 
 EQUITY_ACCOUNTS = ["Equity:Balance", "Eq", "e:q:u", "Equity:Opening·Balance", "a", "x:y"]
+# not account names of the journal grammar (F18: the configuration must reject them)
+BAD_EQUITY_ACCOUNTS = ["", "a b", ":a", "a::b", "1", "-5", "a:", "a;b", "x'y", "(a)", "a:-b", "Equity Account",
+                       "a\tb", " a", "a ", "a:b c"]
 WARNING = [
     "WARNING:",
     "WARNING: The sum of equity transaction is zero without equity account.",
@@ -193,7 +196,7 @@ def journal_accounts(txns):
 # ---------------------------------------------------------------------------------------------
 
 BOUNDARY = ["cancel", "single", "eqa_selected", "prices", "audit", "empty_sel", "filter", "filter_none", "all_zero",
-            "audit_filter", "eqa_parent"]
+            "audit_filter", "eqa_parent", "bad_eqa"]
 
 
 class C10(PropBase):
@@ -252,7 +255,7 @@ class C10(PropBase):
             sel = [a1, a2]
             if rng.random() < 0.5:
                 sel += rng.sample(accts, rng.randrange(0, min(3, len(accts)) + 1))
-        elif kind in ("single", "eqa_parent"):
+        elif kind in ("single", "eqa_parent", "bad_eqa"):
             sel = [rng.choice(accts)]
         elif kind == "empty_sel":
             sel = [rng.choice(["no:such", "a:b:c:d:e:f", accts[0] + "x"])]
@@ -269,6 +272,8 @@ class C10(PropBase):
         eqa = rng.choice(EQUITY_ACCOUNTS)
         if kind == "eqa_selected" or (kind == "random" and rng.random() < 0.08):
             eqa = rng.choice(sel if sel else accts)
+        elif kind == "bad_eqa":
+            eqa = rng.choice(BAD_EQUITY_ACCOUNTS)
         elif kind == "eqa_parent":
             a = sel[0]
             eqa = a.rsplit(":", 1)[0] if ":" in a and rng.random() < 0.6 else a + ":sub"
@@ -324,6 +329,8 @@ class C10(PropBase):
         return c
 
     def model_case(self, case):
+        if case.get("kind") == "bad_eqa":
+            return None     # rejected by the configuration layer, which the Lean model does not cover
         c = {"op": "run", "cfg": model_cfg(case.get("cfg", {})), "txns": case["txns"], "want": ["equity"],
              "equity_account": case["equity_account"], "msel_equity": case["msel_equity"],
              "md_equity": md_lines(case)}
@@ -377,7 +384,23 @@ class C10(PropBase):
 
     # -- the property on the implementation alone
     def oracle(self, case, impl):
-        if not isinstance(impl, dict) or impl.get("r") != "OK":
+        if not isinstance(impl, dict):
+            return None
+        if case.get("kind") == "bad_eqa":
+            # the equity account is written verbatim into the export: a name the journal grammar does not accept
+            # must be rejected when the configuration is read (F18)
+            if impl.get("r") == "CFGERR":
+                return None
+            eq = ((impl.get("out") or {}).get("equity") or {}) if impl.get("r") == "OK" else {}
+            rl = impl.get("reload")
+            if eq.get("r") == "OK" and eq.get("v") and not (isinstance(rl, dict) and rl.get("r") == "OK"):
+                return {"sig": "equity-account-not-validated", "what": "equity account %r is accepted by the configuration "
+                        "and the export is not a journal: %s" % (case["equity_account"], ((rl or {}).get("msg") or "")[:200])}
+            return None
+        if impl.get("r") == "CFGERR":
+            return {"sig": "config-rejected", "what": "configuration with equity account %r rejected: %s" % (
+                case.get("equity_account"), (impl.get("msg") or "")[:200])}
+        if impl.get("r") != "OK":
             return None     # load failures / panics are C15's and C01's business
         out = impl.get("out") or {}
         eq = out.get("equity") or {}
@@ -511,6 +534,8 @@ class C10(PropBase):
         return None
 
     def nontrivial(self, case, impl):
+        if case.get("kind") == "bad_eqa":
+            return True
         if not isinstance(impl, dict) or impl.get("r") != "OK":
             return False
         eq = (impl.get("out") or {}).get("equity") or {}
@@ -526,7 +551,9 @@ class C10(PropBase):
         return ("journal ASTs from gen/common.py (valid journals, 1-9 transactions, 1-4 commodities plus none, closing "
                 "prices, small account pools so that sums combine), equity account from a pool incl. selected accounts "
                 "and their parents/children, selector = none | one account | subset (exact names, regex-escaped), "
-                "optional time-window filter with boundaries on transaction instants, audit on/off; boundary classes: "
+                "optional time-window filter with boundaries on transaction instants, audit on/off; class bad_eqa = equity "
+                "account strings that are not account names (implementation only: must be a configuration error); "
+                "boundary classes: "
                 + ", ".join(BOUNDARY) + "; the export text is re-loaded by the implementation (second pass); "
                 "non-trivial = the export has a transaction and (>=2 commodities | >=3 postings | selector | filter | "
                 "WARNING block) or is a deliberate empty-export class; distinct = sha256 of the implementation case line")
